@@ -46,9 +46,11 @@ CLAIMED["C03"] = ("DESIGN.md §4 C03",
     "One inductive step from an arbitrary valid table state: for add_row/add_column/delete_row/delete_column/write with "
     "every integer start index (or None), counts 1..3 and optional default, z3 shows the real Table code yields exactly the "
     "grid a plain list-of-lists yields, restores the representation invariant (each cell reports its own position), and "
-    "rejects out-of-range starts without change. By induction: histories of any length over these operations (small-scope shapes).",
-    "trusted: pysym; stub model (row/column counters, empty merge map); outside: save/reopen, add_table/add_sheet cloning, "
-    "isolation between documents, shapes beyond 3x2")
+    "rejects out-of-range starts without change. By induction: histories of any length over these operations (small-scope shapes). "
+    "Two consecutive real model.add_table calls (over an attribute-bag object store) give tables that share none of their "
+    "per-table objects (string/style/formula/format lists, header buckets, stroke sidecar).",
+    "trusted: pysym; stub model (row/column counters, empty merge map); protobuf messages as attribute bags in the clone harness; "
+    "outside: save/reopen, add_sheet, contents of cloned protobuf objects, isolation between documents, shapes beyond 3x2")
 CLAIMED["C12"] = ("DESIGN.md §4 C12",
     "All rectangles in tables up to 3x3 (and disjoint pairs given as a list): z3 shows anchor, placeholders, untouched cells "
     "and merge_ranges of the real merge_cells/_set_merge are exactly the rectangle; the real merge-map writer/reader pair is "
@@ -128,10 +130,12 @@ CLAIMED["C13"] = ("DESIGN.md §4 C13",
     "neighbour) and every negative n > -10^15 in two's complement (bases 2/8/16, smallest width >= 32 bits). Fractions: the "
     "real _format_fraction on every multiple of 1/16 (fixed denominators) and of 1/8 (n-digit accuracies) reads back as the "
     "value rounded to the shown denominator, sign and whole part kept. Scientific: the real _format_scientific on every float "
-    "of 1..15 significant digits reads back as the value rounded to places+1 digits in d.dddE+XX form. Decimal/currency: "
-    "separators, negative styles, symbols, accounting layout and percent only decorate the digits the rounding step produced.",
-    "trusted: pysym; sigfig contract stub for decimal/currency (that its digits are the correctly rounded value is not claimed "
-    "there); math.log2 thresholds taken from the running interpreter; float.__format__ '.NE' = correctly rounded decimal "
+    "of 1..15 significant digits reads back as the value rounded to places+1 digits in d.dddE+XX form. Decimal/percent: the real "
+    "_format_decimal (and Cell._custom_format with the value * 100 product carrying symbolic rounding noise) reads back as the "
+    "value rounded to the decimals shown, which are as many as asked for; _custom_format routes every FormatType to its formatter; "
+    "separators, negative styles, symbols, accounting layout and percent only decorate.",
+    "trusted: pysym; sigfig's numeric contract on digit vectors (15 significant digits, half away from zero, grouping), compared "
+    "with the real sigfig on every native replay; float product noise bound (<= 2 ulp, direction symbolic); math.log2 thresholds taken from the running interpreter; float.__format__ '.NE' = correctly rounded decimal "
     "(documented), exact decimal ties explored both ways; Fraction.limit_denominator contract on multiples of 1/8; outside: "
     "custom number patterns, star ratings, fractions of values not representable with the allowed denominator")
 
